@@ -24,7 +24,7 @@ impl Check for C11 {
         300
     }
     fn cases(&self, tier: Tier) -> u64 {
-        tier.pick(30_000, 2_000_000)
+        tier.pick(400_000, 10_000_000)
     }
     fn run_case(&self, src: &mut Src, obs: &mut Obs) -> Result<(), Fail> {
         match src.weighted(&[5, 2, 2, 2]) {
